@@ -87,6 +87,8 @@ CODED_FILES = [BYTES + b.hex() for b in (
     b"# coding: latin-1\n$X = '\xe9'\nwith! c:\n    raw \xe9\nf!(\xfc)\n", b"# coding: cp1252\nz = f'{a=}\x80' +\n", b"\xef\xbb\xbf# coding: utf-8\nx = '\xc3\xa9'\n",
     b"# coding: unicode_escape\nx = 'a\\x41'\n",
     # contents that are no text for CPython either: an unknown encoding, a byte order mark contradicted by the declaration, bytes invalid in UTF-8
+    # line ends other than LF around the declaration: it counts only in the first two lines, and a later `coding:` is just text
+    b"#\rcoding=1\r", "#\rx='coding:latin-1 \u00e9'\r".encode(), b"\r# coding: latin-1\rx = '\xe9'\r", b"#!x\r\n# coding: latin-1\r\nx = '\xe9' 1\r\n", b"# c\r# d\r# coding: latin-1\rx = 1\r",
     b"# coding: no-such-codec\nx = 1\n", b"#!x\n# -*- coding: ut\xc3\xa9f-8 -*-\nx = 1\n", b"\xef\xbb\xbf# coding: latin-1\nx = 1\n", b"x = '\xe9'\n")]
 
 
@@ -130,6 +132,10 @@ def run_shard(shard):
         if c.get("rewritten") is not None and c["rewritten"] != c["file"] and "timeout" not in (c["rewritten"][0], c["file"][0]):
             acc.violation("same-path-rewritten-differs", {"text": t, "env": envname, "prev": prev}, {"fresh_path": _short(c["file"]), "rewritten_path": _short(c["rewritten"])})
         acc.count("rewritten_path_parses", 1 if c.get("rewritten") is not None else 0)
+        if c.get("piped") is not None:
+            acc.count("parses_through_a_named_pipe")
+            if c["piped"] != c["file"] and "timeout" not in (c["piped"][0], c["file"][0]):
+                acc.violation("file-read-through-a-pipe-differs", {"text": t, "env": envname}, {"regular_file": _short(c["file"]), "named_pipe": _short(c["piped"])})
         prev = t
         acc.evals += 1
         if len(t) >= 2:
@@ -145,7 +151,7 @@ def run_shard(shard):
             continue
         for name, enc in c["opened"]:
             acc.seen("encodings_of_opened_files", str(enc).lower())
-            if str(enc).lower().replace("_", "-") not in ("utf-8", "utf8", "utf-8-sig") and not t.startswith(BYTES):  # (a declared encoding is what the file says)
+            if str(enc).lower().replace("_", "-") not in ("utf-8", "utf8", "utf-8-sig", "binary") and not t.startswith(BYTES):  # (a declared encoding is what the file says)
                 acc.violation("source-file-not-read-as-utf8", case, {"file": name, "encoding": enc})
         if not c["opened"]:
             acc.count("spy_saw_no_open")
@@ -154,7 +160,9 @@ def run_shard(shard):
         if c.get("undecodable"):
             # no text to hand to the string entry point (see c12_child): the file must be refused, identically in every environment
             acc.count("contents_that_are_no_text")
-            if fs[0] == "tree":
+            if c["undecodable"] == "reference-decoding-disagrees-with-cpython":
+                acc.inconc("reference decoding disagrees with CPython's own", case)
+            elif fs[0] == "tree":
                 acc.violation("undecodable-file-parsed", case, {"file": _short(fs), "reference": c["undecodable"]})
         elif fs != ss:
             # (finding F12c - no newline translation on the string side - is repaired: any difference is reported as such)
